@@ -19,4 +19,13 @@ def main():
         sys.exit(engine.run_replay(a.id.upper(), a.path))
 
 
-main()
+try:
+    main()
+except SystemExit:
+    raise
+except BaseException:
+    # an exception of the harness is an infrastructure problem (exit 2), never a verdict about the property (exit 1)
+    import traceback
+    traceback.print_exc()
+    print("INCONCLUSIVE: the harness raised an exception (see the traceback on stderr)")
+    sys.exit(2)
